@@ -84,8 +84,46 @@ theorem fit_get_init_cap_gen_tie (maxRate ts : K) (fuel : Nat) (E T V P cap : K)
 
 end
 
+section
+variable {K : Type} [Add K] [Sub K] [Mul K] [Div K] [Neg K] [LT K] [LE K]
+  [DecidableLT K] [DecidableLE K] [OfNat K 0] [OfNat K 1] [NatCast K] [HasExp K]
+
+/-- the `for cap in potential_caps` loop of `batt_cap_fn` (skip a capacity below the request, fit the
+    initial charge, accept the first non-negative one, "No feasible battery size found." at the end) is
+    `Sessions.battCapFn` on every list of candidates, with the defaults `max_rate=32`,
+    `transition_soc=0.8`, `tol=1e-9` that `_get_init_cap(cap)` is called with -/
+theorem fit_batt_cap_fn_loop_tie (fuel : Nat) (E T V P : K) (caps : List K) :
+    Gen.Code.fit_batt_cap_fn_loop fuel E T V P caps
+      = battCapFn caps ((32 : Nat) : K) (((4 : Nat) : K) / ((5 : Nat) : K))
+          (((1 : Nat) : K) / ((1000000000 : Nat) : K)) fuel E T V P := by
+  induction caps with
+  | nil => rfl
+  | cons cap rest ih =>
+    unfold Gen.Code.fit_batt_cap_fn_loop battCapFn
+    simp only [ih, fit_get_init_cap_tie]
+    rfl
+
+/-- `batt_cap_fn(requested_energy, stay_dur, voltage, period)` is `Sessions.battCapFn` on the ladder of
+    capacities written in the source -/
+theorem fit_batt_cap_fn_tie (fuel : Nat) (E T V P : K) :
+    Gen.Code.fit_batt_cap_fn fuel E T V P
+      = battCapFn [((8 : Nat) : K), ((24 : Nat) : K), ((40 : Nat) : K), ((60 : Nat) : K), ((85 : Nat) : K),
+                   ((100 : Nat) : K)]
+          ((32 : Nat) : K) (((4 : Nat) : K) / ((5 : Nat) : K))
+          (((1 : Nat) : K) / ((1000000000 : Nat) : K)) fuel E T V P := by
+  unfold Gen.Code.fit_batt_cap_fn
+  exact fit_batt_cap_fn_loop_tie ..
+
+end
+
+/-- the ladder, `max_rate` and `transition_soc` of the source are the regenerated constants that
+    `Sessions.battCapFnGen` instantiates the model with (`C15.gen_fit_consts` states their values) -/
+theorem fit_consts_are_gen :
+    Gen.fitCaps = [8, 24, 40, 60, 85, 100] ∧ Gen.fitMaxRate = 32 ∧ Gen.fitTransitionSoc = 4 / 5 := by
+  decide +kernel
+
 /-- every target of this group was translated in this run -/
 theorem all_translated_fit : Gen.Code.translatedFit
-    = ["fit_delta_soc", "fit_binsearch", "fit_closed_init_soc", "fit_get_init_cap"] := by decide
+    = ["fit_delta_soc", "fit_binsearch", "fit_closed_init_soc", "fit_get_init_cap", "fit_batt_cap_fn"] := by decide
 
 end Acn.CodeTie
